@@ -30,8 +30,20 @@ def make_media(plan, hook=None):
     """Coordinate-carrying frames for every scene frame. Returns (FakeVideo | None, Labels)."""
     dtype = np.uint8 if plan.get("dtype", "uint8") == "uint8" else np.float32
 
+    blob = plan.get("frame_kind") == "blob"
+
     def render(f):
         H, W = frame_hw(plan, f)
+        if blob:
+            # one-node animals drawn as Gaussian blobs on a black single-channel float frame
+            ys, xs = np.mgrid[0:H, 0:W].astype(np.float64)
+            img = np.zeros((H, W), dtype=np.float64)
+            sb = plan["blob_sigma"]
+            for a in f["animals"]:
+                x, y = a[0]
+                if x == x and y == y:
+                    img = np.maximum(img, np.exp(-((xs - x) ** 2 + (ys - y) ** 2) / (2 * sb * sb)))
+            return img[..., None].astype(np.float32)
         fr = dw.coord_frame(H, W, dw.frame_level(f["k"]), np.float64)
         return (fr / 255.0).astype(np.float32) if dtype == np.float32 else fr.astype(np.uint8)
 
@@ -42,7 +54,7 @@ def make_media(plan, hook=None):
     if not mixed:
         H, W = plan["H"], plan["W"]
         arr = [render(f) for f in plan["frames"]]
-        arr = np.stack(arr) if arr else np.zeros((0, H, W, 3), dtype=dtype)
+        arr = np.stack(arr) if arr else np.zeros((0, H, W, 1 if blob else 3), dtype=dtype)
         video = media.FakeVideo(arr, on_read=hook)
     if any("vid" in f for f in plan["frames"]):
         # labels listed in arbitrary order over two videos: (vid, fidx) is the frame's identity
@@ -51,7 +63,7 @@ def make_media(plan, hook=None):
         varr = []
         for v in range(nv):
             Hv, Wv = tuple(plan["sizes"][v]) if "sizes" in plan else (plan["H"], plan["W"])
-            varr.append(np.zeros((nf, Hv, Wv, 3), dtype=dtype))
+            varr.append(np.zeros((nf, Hv, Wv, 1 if blob else 3), dtype=np.float32 if blob else dtype))
         for f in plan["frames"]:
             varr[f["vid"]][f["fidx"]] = render(f)
         vids = [media.make_mem_video(varr[v], name=f"mem{v}.mp4", on_read=hook) for v in range(nv)]
@@ -86,7 +98,7 @@ def head_cfg(plan, model):
     }
     return OmegaConf.create(
         {
-            "data_config": {"preprocessing": {"scale": m["scale"], "is_rgb": True, "max_height": plan["max_hw"][0], "max_width": plan["max_hw"][1],
+            "data_config": {"preprocessing": {"scale": m["scale"], "is_rgb": plan.get("frame_kind") != "blob", "max_height": plan["max_hw"][0], "max_width": plan["max_hw"][1],
                                               "crop_hw": plan.get("crop_hw")}},
             "model_config": {"backbone_config": {"unet": {"max_stride": m["max_stride"]}}, "head_configs": heads},
         }
@@ -100,18 +112,19 @@ def build_predictor(plan, sim, provider, hook=None, batch=None, max_instances="p
     sigma = plan.get("sigma", 1.5)
     bs = plan["batch"] if batch is None else batch
     nets = {}
-    prep = OmegaConf.create({"is_rgb": True, "max_height": plan["max_hw"][0], "max_width": plan["max_hw"][1], "crop_hw": plan.get("crop_hw"),
+    rgb = plan.get("frame_kind") != "blob"
+    prep = OmegaConf.create({"is_rgb": rgb, "max_height": plan["max_hw"][0], "max_width": plan["max_hw"][1], "crop_hw": plan.get("crop_hw"),
                              "anchor_ind": plan.get("anchor")})
     kind = plan["kind"]
     refine = plan.get("refinement")
     if kind == "single":
-        net = IdealNet(lookup, "single", plan["single"]["stride"], sigma, plan["n_nodes"])
+        net = IdealNet(lookup, "single" if rgb else "blob", plan["single"]["stride"], sigma, plan["n_nodes"])
         nets["single"] = net
         pred = P.SingleInstancePredictor(confmap_config=head_cfg(plan, "single"), confmap_model=net, backbone_type="unet", peak_threshold=0.2,
                                          integral_refinement=refine, integral_patch_size=5, batch_size=bs, preprocess_config=prep)
     elif kind == "topdown":
-        cnet = IdealNet(lookup, "centroid", plan["centroid"]["stride"], sigma, plan["n_nodes"], anchor=plan.get("anchor"))
-        inet = IdealNet(lookup, "centered", plan["centered"]["stride"], sigma, plan["n_nodes"], anchor=plan.get("anchor"))
+        cnet = IdealNet(lookup, "centroid" if rgb else "blob", plan["centroid"]["stride"], sigma, plan["n_nodes"], anchor=plan.get("anchor"))
+        inet = IdealNet(lookup, "centered" if rgb else "blob", plan["centered"]["stride"], sigma, plan["n_nodes"], anchor=plan.get("anchor"))
         nets["centroid"], nets["centered"] = cnet, inet
         mi = plan.get("max_instances") if max_instances == "plan" else max_instances
         pred = P.TopDownPredictor(centroid_config=head_cfg(plan, "centroid"), confmap_config=head_cfg(plan, "centered"), centroid_model=cnet,
